@@ -1,6 +1,7 @@
 package wl
 
 import (
+	"encoding/binary"
 	"fmt"
 	"math/rand"
 	"strings"
@@ -175,7 +176,61 @@ func c10(c *wk.Ctx) {
 		}
 		idx++
 	}
+	// (F) the client's own traffic: after a minute without requests the keep-alive ping goes out by itself; it is a
+	// message of the stream like any other (one case: it takes 62 s of real time, in a shard of its own)
+	for k := 0; k < c.Pick(1, 2); k++ {
+		if c.Mine(idx) {
+			c.Begin(idx, fmt.Sprintf("keep-alive %d", k))
+			c10keepalive(c, idx, c.Rand(idx))
+		}
+		idx++
+	}
 	theHooks.flushCounts(c)
+}
+
+func c10keepalive(c *wk.Ctx, idx int, r *rand.Rand) {
+	var pings int32
+	e, err := newRPCEnv(c, idx, r, envOpts{
+		Any: func(e *rpcEnv, cn *refserver.Conn, in *mtp.Inner) bool {
+			if len(in.Body) >= 12 && binary.LittleEndian.Uint32(in.Body) == 0x7abe77ec { // ping#7abe77ec ping_id:long
+				atomic.AddInt32(&pings, 1)
+				e.sendService(cn, refserver.Pong(in.MsgID, int64(binary.LittleEndian.Uint64(in.Body[4:12]))), true, "pong")
+				return false // recorded like every other message of the stream
+			}
+			return false
+		},
+		Handler: func(e *rpcEnv, p pendingReq, in *mtp.Inner) bool {
+			e.sendGroup(p.conn, [][]byte{e.resultBody(p, wrapOpts{})}, []uint64{p.uid}, false)
+			return true
+		}})
+	if err != nil {
+		c.Log.Emit(coreInconclusive("c10 setup: " + err.Error()))
+		return
+	}
+	defer e.close()
+	used := map[uint64]bool{}
+	call := func() bool {
+		return withTimeout(30*time.Second, func() { e.doCall(0, uidFor(r, "object", used), "object", false) })
+	}
+	if !call() {
+		c.Log.Emit(coreInconclusive("c10 keep-alive: first call did not return"))
+		return
+	}
+	for w := 0; w < 640 && atomic.LoadInt32(&pings) == 0; w++ { // until the ping is seen (the ticker fires at 60 s)
+		time.Sleep(100 * time.Millisecond)
+	}
+	if atomic.LoadInt32(&pings) == 0 {
+		c.Log.Emit(coreInconclusive("c10 keep-alive: no ping seen within 64 s"))
+		return
+	}
+	if !call() {
+		c.Log.Emit(coreInconclusive("c10 keep-alive: call after the ping did not return (C16 judges that)"))
+		return
+	}
+	e.quiesce(2 * time.Second)
+	checkOutgoing(c, idx, e, "keep-alive", wallClock)
+	c.Count("c10.keepalive_pings_observed", int64(atomic.LoadInt32(&pings)))
+	c.Distinct("keepalive", 1)
 }
 
 func c10reconnect(c *wk.Ctx, idx int, r *rand.Rand) {
